@@ -87,6 +87,7 @@ type Conn struct {
 	out    *half
 	closed bool
 	rdl    time.Time
+	wdl    time.Time // write deadline (writes never block; a deadline that has passed fails them)
 	rwake  chan struct{}
 	local  net.Addr
 	remote net.Addr
@@ -373,6 +374,12 @@ func (c *Conn) Write(b []byte) (int, error) {
 	if c.closed {
 		return 0, opErr("write", c, net.ErrClosed)
 	}
+	if !c.wdl.IsZero() && !time.Now().Before(c.wdl) {
+		// a write deadline that has passed fails the write at once, as the runtime's
+		// poller does, although the write itself would not have blocked
+		n.logOp(c, "wTO", 0)
+		return 0, opErr("write", c, os.ErrDeadlineExceeded)
+	}
 	if c.out.broken {
 		n.logOp(c, "wPIPE", 0)
 		return 0, opErr("write", c, os.NewSyscallError("write", syscall.EPIPE))
@@ -427,7 +434,13 @@ func (c *Conn) deadlineFault() error {
 }
 
 func (c *Conn) SetDeadline(t time.Time) error {
-	return c.SetReadDeadline(t)
+	if err := c.SetReadDeadline(t); err != nil {
+		return err
+	}
+	c.net.mu.Lock()
+	c.wdl = t
+	c.net.mu.Unlock()
+	return nil
 }
 
 func (c *Conn) SetReadDeadline(t time.Time) error {
@@ -455,6 +468,7 @@ func (c *Conn) SetWriteDeadline(t time.Time) error {
 	if c.closed {
 		return opErr("set", c, net.ErrClosed)
 	}
+	c.wdl = t
 	return nil
 }
 
